@@ -154,7 +154,10 @@ func Forany[T any](pred func(T) bool, s []T) bool {
 }
 
 func PushLast[T any](elem T, s []T) []T {
-	return append(s, elem)
+	// never append in place: s may share its backing array with other slices.
+	res := make([]T, 0, len(s)+1)
+	res = append(res, s...)
+	return append(res, elem)
 }
 
 func PushHead[T any](elem T, s []T) []T {
